@@ -263,45 +263,21 @@ def rule_round_robin(ck):
     ck.require(len(apps) == 1 and call_name(apps[0][1]) == "append" and apps[0][1].args and canon(apps[0][1].args[0]) == canon(fl.expand(ast.Name(id="session", ctx=ast.Load()), apps[0][0])) or
                (len(apps) == 1 and call_name(apps[0][1]) == "append" and dotted(apps[0][1].args[0]) == "session"),
                "C08.R4", f, apps[0][1] if apps else "queue.append(session)", ok="re-queued at the tail (right)", bad="the raised session is not re-appended at the right end (round-robin fairness / priority order)", sink="rr:append")
-    incs = [n for n in body if n.kind == "stmt" and isinstance(n.stmt, (ast.AugAssign, ast.Assign)) and
-            any(isinstance(t, ast.Subscript) and dotted(t.value) == "rate_idx" for t in (n.stmt.targets if isinstance(n.stmt, ast.Assign) else [n.stmt.target]))]
-    ck.require(len(incs) == 1, "C08.R4", f, "rate_idx[i] += 1", bad=f"{len(incs)} updates of the level index", sink="rr:inc-count")
-
-    def feas_fact(n):
-        return [t_ for a_, t_ in facts_at(fl, n) if is_feasible_call(a_) and any(
-            tn in body and any(x is a_ for x in ast.walk(tn.expr)) for tn, _ in cfg.edges_dominating(n) if tn.kind == "test")]
-    for n in incs:
-        s = n.stmt
-        tgt = s.target if isinstance(s, ast.AugAssign) else s.targets[0]
-        if isinstance(s, ast.AugAssign):
-            step = linear(s.value, norm=canon) if isinstance(s.op, ast.Add) else None
-        else:
-            step = linear(fl.expand(s.value, n), norm=canon) - linear(fl.expand(tgt, n), norm=canon)
-        ok = step is not None and step == Lin({}, 1) and canon(tgt.slice) == "i"
-        ck.require(ok, "C08.R4", f, s, ok="advances by exactly one level", bad=f"`{src(s)}`: the level index must advance by exactly 1", sink="rr:inc")
-        ck.require(feas_fact(n) == [True], "C08.R4", f, s, ok="only on the feasible edge", bad="the level index advances without the next level having been found feasible", sink="rr:inc-edge")
-        if apps:
-            a = apps[0][0]
-            same = feas_fact(a) == [True] and (cfg.dominates(n, a) or cfg.dominates(a, n))
-            ck.require(same, "C08.R4", f, apps[0][1], ok="re-queued exactly when it advanced", bad="the session is re-queued on a path where it did not advance (or dropped although it advanced)", sink="rr:append-iff")
-    # a session leaves the queue only at its last level or when the next level is infeasible: the only tests in the loop are the
-    # feasibility check and the `a next level exists` gate, and the gate guards the tentative raise
-    tests = [t for t in body if t.kind == "test"]
-    gates = [t for t in tests if not any(is_feasible_call(x) for x in ast.walk(t.expr))]
-    tents = [n for n in body if n.kind == "stmt" and isinstance(n.stmt, ast.Assign) and isinstance(n.stmt.targets[0], ast.Subscript) and dotted(n.stmt.targets[0].value) == "schedule"
-             and canon(fl.expand(n.stmt.value, n)) == xp(fl, n, "allowable_pilots[i][rate_idx[i] + 1]")]
-    good = False
-    for tn in tents:
-        want = linear(fl.expand(ast.parse("len(allowable_pilots[i]) - rate_idx[i] - 1", mode="eval").body, tn), norm=canon)   # len - idx - 1 > 0  <=>  idx + 1 < len
-        for a_, t_ in facts_at(fl, tn):
-            c = cmp_norm(fl.expand(a_, tn), t_)
-            if c and c[1] == "<" and linear(c[2], norm=canon) - linear(c[0], norm=canon) == want:
-                good = True
-            if c and c[1] == "<=" and linear(c[2], norm=canon) - linear(c[0], norm=canon) == want + Lin({}, 1):
-                good = True
-    ck.require(good and len(gates) == 1 and bool(tents), "C08.R4", f, gates[0].expr if gates else "if rate_idx[i] < len(levels) - 1", ok="dropped only at its last level or when the next level is infeasible",
-               bad="a session can leave the round robin for another reason than `last level reached` / `next level infeasible`", sink="rr:leave")
-    i_defs = [n for n in body if n.kind == "stmt" and isinstance(n.stmt, ast.Assign) and any(dotted(t) == "i" for t in n.stmt.targets)]
+    # what one iteration does to the level index, the schedule slot and the queue, on every path through the loop body (sa/props/rrstate.py):
+    # raised by exactly one level after the oracle accepted exactly that schedule and re-queued / left and dropped after a refusal / dropped
+    # at the last level - however the tentative store, the revert or a probe on a copy are written
+    from .rrstate import check_iteration
+    sess_defs = [n for n in body if n.kind == "stmt" and isinstance(n.stmt, ast.Assign) and isinstance(n.stmt.value, ast.Call) and call_name(n.stmt.value) == "popleft"
+                 and isinstance(n.stmt.targets[0], ast.Name)]
+    ivars = [n for n in body if n.kind == "stmt" and isinstance(n.stmt, ast.Assign) and isinstance(n.stmt.targets[0], ast.Name)
+             and isinstance(n.stmt.value, ast.Call) and call_name(n.stmt.value) == "get_station_index"]
+    if len(sess_defs) != 1 or len(ivars) != 1:
+        raise AnalysisError("round_robin: the dequeued session / its station index are not bound once in the loop body")
+    names = {"out": "schedule", "idx": "rate_idx", "ladders": "allowable_pilots", "queue": "queue", "session": sess_defs[0].stmt.targets[0].id,
+             "ivar": ivars[0].stmt.targets[0].id}
+    n_paths = check_iteration(ck, "C08.R4", f, fl, w, names)
+    ck.count("paths through one round-robin iteration interpreted", n_paths)
+    i_defs = ivars
     ck.require(len(i_defs) == 1 and canon(fl.expand(i_defs[0].stmt.value, i_defs[0])) == "infrastructure.get_station_index(session.station_id)", "C08.R4", f,
                i_defs[0].stmt if i_defs else "i = ...", ok="works on the dequeued session's own station", bad="the station index is not that of the dequeued session", sink="rr:station")
 
